@@ -1,9 +1,10 @@
 CONSTANTS
   Kind = "testdrv"
   MaxL = 2
+  WithOpts = TRUE
   MaxMsgs = 3
 INIT Init
 NEXT Next
-INVARIANTS OnlyWhileListening ClosedReported NeverTwoListeners ActiveImpliesOpen
+INVARIANTS FilteredNeverDelivered OnlyWhileListening ClosedReported NeverTwoListeners ActiveImpliesOpen
 PROPERTY NoCallbackAfterStop
 CHECK_DEADLOCK FALSE
